@@ -567,6 +567,7 @@ V({
         "V22: Rust runs Drop::drop of the SolveState when a database callback panics and unwinds through the solver (language semantics; neither tool models unwinding)",
         "V22: precondition (stack invariant of the state machine, not verified here): every stack entry below the top holds its suspended strand; a strand that the state machine holds in a local variable at the moment of the panic is not covered (the code's own FIXME in StackEntry)",
         "V22: Tables / Table are abstract (views: table at an index, its strand queue, 'everything else'); Table::enqueue_strand appends to the queue and changes nothing else; custom Index/IndexMut impls have no precondition",
+        "V22: if `impl Drop for SolveState` is absent from logic.rs while the struct is still there, the drop contract is checked against the implicit EMPTY drop (dropping then runs no user code); a refactoring that moves the clean-up into a guard object or another file would be reported although correct",
         "V22: Verus allows no precondition on Drop::drop, so the verbatim text of <SolveState as Drop>::drop is checked as an inherent method of the same name (only the enclosing impl header differs)",
     ],
     "trusted": ["chalk-engine Tables / Table (abstract)", "Rust unwinding semantics"],
